@@ -21,7 +21,7 @@ DenyList == {"f64", "rich", "gm"}
 Wrappers ==
     {[EW("GDimsStream") EXCEPT !.ds = <<"z">>, !.deny = DenyList], [EW("GDimsStream") EXCEPT !.ds = <<"x", "y">>],
      [EW("GDimsFormat") EXCEPT !.ds = <<"z", "x">>, !.deny = DenyList], [EW("GDimsFormat") EXCEPT !.ds = <<"y">>],
-     EW("MergeStream"), EW("MergeFormat"), [EW("FlagStream") EXCEPT !.f = "A"]}
+     EW("MergeStream"), EW("MergeFormat"), [EW("FlagStream") EXCEPT !.f = "A"], [EW("FlagStream") EXCEPT !.f = "0"]}
 Results == {"ok", "io", "val"}
 
 Compact(it) == IF it.t = "val" THEN [t |-> "val", name |-> it.name, call |-> it.call] ELSE [t |-> it.t, id |-> it.id]
@@ -46,7 +46,7 @@ HistoryIndependent ==
 AdditionsPresent ==
     (hist # <<>> /\ faulted) =>
         CASE wrapper.w \in DimDeny -> \E i \in DOMAIN out.items : out.items[i].t = "val" /\ out.items[i].call.dims # EntryH.items[i].call.dims
-          [] wrapper.w \in FlagAll -> \E i \in DOMAIN out.items : out.items[i].t = "val" /\ wrapper.f \in out.items[i].call.flags
+          [] wrapper.w \in FlagAll /\ wrapper.f # "0" -> \E i \in DOMAIN out.items : out.items[i].t = "val" /\ wrapper.f \in out.items[i].call.flags
           [] wrapper.w \in MergeFirst -> SubSeq(out.items, 1, Len(EntryG.items)) = EntryG.items
           [] OTHER -> TRUE
 Emit == Len(hist) = Depth => PrintT(<<"REPLAY", ToJson([wrapper |-> wrapper, steps |-> hist])>>)
